@@ -542,4 +542,4 @@ LEVEL_TEXT = ("contract-based with an assumed SQL engine: symbolic contract on _
               "on build_query vs C.2.2.2, character-level contract on the LIKE pattern of _search_wildcard; the meaning of the criteria under "
               "the assumed SQLite contract (case folding, instance rows) is recorded as refuted obligations.")
 LEVEL_NOTE = "level 'other': SQL engine assumed; two open known findings (LIKE folds case, one response per instance)."
-TECHNIQUE = "deductive: AST->VC (z3) on the query-construction functions with character-level strings; SQL semantics assumed; findings replayed on in-memory SQLite"
+TECHNIQUE = 'deductive: AST->VC (z3) on the query-construction functions (hierarchy check, matching dispatch per value shape, criteria of each matching kind, LIKE pattern over an escape-aware slot string); SQL semantics assumed; findings replayed on in-memory SQLite with wire-decoded identifiers'
